@@ -21,13 +21,14 @@ SUB = {
     "comments": [47, 42, 45, 35, 10, 97, 39, 32, 59],                                # / * - # \n a ' space ;
     "dotmode": [97, 46, 49, 41, 93, 64, 96, 32, 115, 47, 42],                        # a . 1 ) ] @ ` space s / *
     "prefixes": [114, 82, 98, 66, 39, 34, 92, 97, 10],                               # r R b B ' " \ a \n
+    "highbytes": [97, 32, 0x85, 0xA0, 0xC2, 0xE3, 0x80, 39, 47, 42],                 # lone and well-formed non-ASCII white space
 }
 KW_SAMPLE = ["select", "SeLeCt", "Null", "nulls", "iN", "ins", "By", "tO", "oF", "of_", "hash", "HASH1", "Interval",
              "proto", "assert_rows_modified", "ASSERT_ROWS_MODIFIE", "Graph_Table", "graph_tabl", "tablesample", "WITHIN", "withi"]
 
 TIERS = {
-    "quick": dict(sigma_len=3, subs={"escapes": 4, "numbers": 4, "comments": 4, "dotmode": 4, "prefixes": 4}, random=4000, rlen=24, gen_len=3, chunks=8),
-    "thorough": dict(sigma_len=4, subs={"escapes": 5, "numbers": 5, "comments": 6, "dotmode": 5, "prefixes": 6}, random=60000, rlen=40, gen_len=4, chunks=16),
+    "quick": dict(sigma_len=3, subs={"escapes": 4, "numbers": 4, "comments": 4, "dotmode": 4, "prefixes": 4, "highbytes": 4}, random=4000, rlen=24, gen_len=3, chunks=8),
+    "thorough": dict(sigma_len=4, subs={"escapes": 5, "numbers": 5, "comments": 6, "dotmode": 5, "prefixes": 6, "highbytes": 5}, random=60000, rlen=40, gen_len=4, chunks=16),
 }
 
 
@@ -50,6 +51,22 @@ def extra_inputs(path):
                 lines.append(pre + q + body + q)
                 lines.append(pre + q + body)                      # unterminated
                 lines.append(pre + q + body + q + "x")
+    for cp in [0, 1, 0x7f, 0x80, 0xa0, 0xff, 0x100, 0x7ff, 0x800, 0xd7ff, 0xd800, 0xdfff, 0xe000, 0xfffd, 0xfffe, 0xffff]:
+        for q in ['"', "'", "`"]:
+            lines.append("%s\\u%04x%s" % (q, cp, q))
+            lines.append("%s\\u%04X%s" % (q, cp, q))
+            lines.append("%sa\\U%08x%s" % (q, cp, q))
+        lines.append('b"\\u%04x"' % cp)
+        lines.append('r"\\u%04x"' % cp)
+    for cp in [0x10000, 0x1f600, 0x10ffff, 0x110000, 0xffffffff, 0x7fffffff]:
+        lines.append('"\\U%08x"' % cp)
+        lines.append('`\\U%08X`' % cp)
+    for o in range(0, 512, 7):
+        lines.append('"\\%03o"' % o)
+        lines.append("b'\\%03o'" % o)
+    for h in range(0, 256, 5):
+        lines.append('"\\x%02x"' % h)
+        lines.append("b'\\X%02X'" % h)
     lines += ["a.1.b", "a.select.from", "a . 1e5", "a.1e5", "1.e5", "1e5.5", ".5e+3", "1..2", "a..b", "@p.all", "f(x).1", "a[1].2b", "`a`.1",
               "0x1F", "0X1f", "0x", "0xg", "1e", "1e+", "1ea", "1.5.2", "1_0", "0x1.5", "- -1", "a-- b\nc", "a//b\nc", "a#b", "a/**/b", "/* /* */ */",
               "/*", "/*/", "/**/", "/***/", "--", "#", "//", "a\xc2\xa0b", "\xe3\x80\x80a", "a\x0bb\x0cc", "<<>>=<>!=||->=>|>@@+=-=", "<>>", ">>>", "!", "$", "?", "\\", "@", "@1", "@@a", "@a-b"]
